@@ -749,6 +749,10 @@ func parseStringLiteral(literal string) (string, error) {
 			var size int
 			value, size = utf8.DecodeRuneInString(str)
 			str = str[size:] // \ + <character>
+			if value == '\u2028' || value == '\u2029' {
+				// LineContinuation: the line and paragraph separators are line terminators too.
+				continue
+			}
 		} else {
 			str = str[2:] // \<character>
 			switch chr {
